@@ -612,7 +612,26 @@ type loopExit struct {
 
 // loopExits lists the edges that leave the natural loop with header hdr.
 func (a *FA) loopExits(hdr *ssa.BasicBlock) []loopExit {
-	inLoop := func(b *ssa.BasicBlock) bool { return hdr.Dominates(b) && a.Reaches(b, hdr) }
+	// the natural loop of hdr: hdr plus everything that reaches one of its latches without passing through hdr
+	body := map[*ssa.BasicBlock]bool{hdr: true}
+	var st []*ssa.BasicBlock
+	for _, p := range hdr.Preds {
+		if hdr.Dominates(p) && !body[p] {
+			body[p] = true
+			st = append(st, p)
+		}
+	}
+	for len(st) > 0 {
+		b := st[len(st)-1]
+		st = st[:len(st)-1]
+		for _, p := range b.Preds {
+			if !body[p] {
+				body[p] = true
+				st = append(st, p)
+			}
+		}
+	}
+	inLoop := func(b *ssa.BasicBlock) bool { return body[b] }
 	var out []loopExit
 	for _, b := range hdr.Parent().Blocks {
 		if !inLoop(b) {
@@ -638,6 +657,65 @@ func (a *FA) loopExits(hdr *ssa.BasicBlock) []loopExit {
 		}
 	}
 	return out
+}
+
+// loopBody: the natural loop of hdr (empty when hdr has no back edge).
+func loopBody(hdr *ssa.BasicBlock) map[*ssa.BasicBlock]bool {
+	body := map[*ssa.BasicBlock]bool{}
+	var st []*ssa.BasicBlock
+	for _, p := range hdr.Preds {
+		if hdr.Dominates(p) && !body[p] {
+			body[p] = true
+			st = append(st, p)
+		}
+	}
+	if len(st) == 0 {
+		return body
+	}
+	body[hdr] = true
+	for len(st) > 0 {
+		b := st[len(st)-1]
+		st = st[:len(st)-1]
+		if b == hdr {
+			continue
+		}
+		for _, p := range b.Preds {
+			if !body[p] {
+				body[p] = true
+				st = append(st, p)
+			}
+		}
+	}
+	return body
+}
+
+// inSomeLoop reports the header of a natural loop whose body contains b (control can come round again after b).
+func inSomeLoop(b *ssa.BasicBlock) *ssa.BasicBlock {
+	for _, h := range b.Parent().Blocks {
+		if body := loopBody(h); body[b] {
+			return h
+		}
+	}
+	return nil
+}
+
+// earlyExit: a loop that is meant to visit every value of its counter up to the guard's bound is left only through a
+// test of that counter; returns a description of another way out (break on a different condition, return), or "".
+func (a *FA) earlyExit(iv *LoopIV) string {
+	if iv == nil || iv.Phi == nil {
+		return ""
+	}
+	phiAtom := a.VN(iv.Phi)
+	for _, ex := range a.loopExits(iv.Phi.Block()) {
+		if ex.If == nil {
+			return "the loop is left unconditionally at " + a.W.InstrPos(ex.From.Instrs[len(ex.From.Instrs)-1])
+		}
+		if D, _, ok := a.CondRel(Cond{V: ex.Cond, Pol: ex.Pol, If: ex.If}); ok && D.T[phiAtom] != 0 {
+			continue
+		}
+		return "the loop is also left on the branch at " + a.W.InstrPos(ex.If) + ", which does not test the counter: the remaining elements are not visited"
+	}
+	return ""
 }
 
 // linMul multiplies two small linear forms with unit coefficients: the products of their atoms carry the name the
